@@ -179,13 +179,15 @@ def run_ch(ob, ctx):
     # known findings: replay witness, exclude region if it still fails
     extra_pre = []
     for kf in ctx.findings.for_obligation(ctx.prop, ob.name):
-        w = kf.get("witness")
+        if "ch_region" not in kf:
+            continue
+        w = kf.get("ch_witness")
         if isinstance(w, dict):
             w = w.get(ob.name)
         rr = replay_call(ob.file, w) if w else dict(ok=True)
         if not rr.get("ok"):
             rec["known"].append(dict(id=kf["id"], what=kf["what"], witness=w, observed=rr))
-            extra_pre.append(f"not ({kf['region']})")
+            extra_pre.append(f"not ({kf['ch_region']})")
         else:
             rec.setdefault("known_not_reproducing", []).append(kf["id"])
 
